@@ -583,7 +583,44 @@ class FakeOSPath:
         raise ModelGap("os.path.%s" % k)
 
 
+class FakeGlob:
+    """glob / iglob / escape on the modelled file system (fnmatch semantics per path component)"""
+
+    def __init__(self, w):
+        self._w = w
+
+    @staticmethod
+    def escape(p):
+        import glob as _g
+        return _g.escape(p)
+
+    @staticmethod
+    def has_magic(p):
+        import glob as _g
+        return _g.has_magic(p)
+
+    def glob(self, pattern, *, root_dir=None, recursive=False, **kw):
+        import fnmatch
+        pat = self._w._norm(pattern if root_dir is None else posixpath.join(root_dir, pattern))
+        parts = pat.split("/")[1:]
+        cur = ["/"]
+        for part in parts:
+            nxt = []
+            for d in cur:
+                if not self._w.isdir(d):
+                    continue
+                for n in sorted(self._w._children(d)):
+                    if fnmatch.fnmatchcase(n, part) and not (n.startswith(".") and not part.startswith(".")):
+                        nxt.append(posixpath.join(d, n))
+            cur = nxt
+        return self._w._order([c for c in cur]) if cur else []
+
+    def iglob(self, pattern, **kw):
+        return iter(self.glob(pattern, **kw))
+
+
 class FakeOS:
+    O_RDONLY, O_WRONLY, O_RDWR, O_CREAT, O_EXCL, O_TRUNC, O_APPEND = 0, 1, 2, 64, 128, 512, 1024
     name = "posix"
     sep = "/"
     linesep = "\n"
@@ -604,6 +641,34 @@ class FakeOS:
 
     def getcwd(self):
         return self._w.cwd
+
+    def open(self, path, flags, mode=0o777, **kw):
+        w = self._w
+        p = w._norm(path)
+        if flags & (self.O_WRONLY | self.O_RDWR | self.O_CREAT | self.O_TRUNC | self.O_APPEND):
+            if flags & self.O_EXCL and p in w.nodes:
+                raise FileExistsError(17, "File exists", p)
+            if not (flags & self.O_CREAT) and p not in w.nodes:
+                raise FileNotFoundError(2, "No such file or directory", p)
+            f = w.open(p, "ab" if (p in w.nodes and not flags & self.O_TRUNC) else "wb")
+        else:
+            f = w.open(p, "rb")
+        w._fds = getattr(w, "_fds", {})
+        fd = 100 + len(w._fds)
+        w._fds[fd] = f
+        return fd
+
+    def close(self, fd):
+        self._w._fds.pop(fd).close()
+
+    def write(self, fd, data):
+        return self._w._fds[fd].write(data)
+
+    def fdopen(self, fd, mode="r", *a, **kw):
+        f = self._w._fds[fd]
+        if hasattr(f, "text"):
+            f.text = "b" not in mode
+        return f
 
     def getpid(self):
         return 4242
@@ -660,9 +725,14 @@ def install(world, summarise_c4=True, xsd=None):
     C, Hi, HL, XP, CP, HA, TR, G, IG, U, LG = _modules()
     ins = Installed()
     fos = FakeOS(world)
+    fglob = FakeGlob(world)
     for m in (C, Hi, HL, XP, CP, HA, TR, IG, U, G):
         if "os" in m.__dict__:
             ins.set(m, "os", fos)
+        if "glob" in m.__dict__:
+            ins.set(m, "glob", fglob)
+        for fn in ("glob", "iglob"):
+            pass
     for m in (C, Hi, HL, XP, CP, HA, IG, U, G, TR):
         ins.set(m, "open", world.open)
     ins.set(TR, "join", posixpath.join)
